@@ -335,6 +335,25 @@ fn c14(p: &Prog, rec: &mut Rec, tier: u8) {
     if distinct.len() != r.iters {
         rec.v("path_repeat", "", format!("{} iterations but {} distinct decision paths", r.iters, distinct.len()));
     }
+    // the same with decisions that are recorded while exploration is switched off (regions around main's / thread 1's
+    // operations, skip_branch): such a decision is never advanced (a restricted run may well have MORE iterations than
+    // the unrestricted one - conflicts found inside a region backtrack to an earlier, coarser decision)
+    if rec.idx % 4 == 0 && rec.viol.is_empty() {
+        for ctrl in [3u8, 5, 4] {
+            if ctrl == 5 && p.threads.len() < 2 {
+                continue;
+            }
+            let mut cfg = base_cfg(tier);
+            cfg.ctrl = ctrl;
+            let rc = run(p, &cfg);
+            account(rec, &rc);
+            if rc.panic.is_some() {
+                continue;
+            }
+            let repc = pathmon::check(&rc.paths, None, true);
+            add_path_viol(rec, &repc, &format!("ctrl {}: ", ctrl));
+        }
+    }
     rec.nontrivial = r.iters >= 2;
     if rec.idx % 499 == 0 {
         rec.extra = json!({"family": "path", "iterations": r.iters, "decision_entries": rep.entries, "max_path_len": rep.max_len, "kinds_sched_load_spur": rep.kinds});
